@@ -133,10 +133,9 @@ Proof.
   intros rs sym sig mode b v H. unfold run_catch. rewrite H.
   destruct (apply_target sym (v_st v) (v_ca v)) as [[[st' ca'] nsym] s].
   destruct s; eauto. unfold fetch_code.
-  destruct (rs_code rs nsym) eqn:Hc.
-  - eexists. split; [reflexivity|]. cbn. auto.
-  - do 2 eexists. split; [reflexivity|discriminate].
-  - do 2 eexists. split; [reflexivity|discriminate].
+  destruct (rs_observed rs); destruct (rs_code rs nsym) eqn:Hc;
+    try (eexists; split; [reflexivity|]; cbn; auto; fail);
+    try (do 2 eexists; split; [reflexivity|discriminate]).
 Qed.
 
 Lemma run_croak_no_match : forall sep sig mode b v,
@@ -234,10 +233,10 @@ Proof.
   rewrite Hc.
   destruct (apply_target dest _ ca) as [[[st' ca'] nsym] s].
   destruct s as [|e m|n|].
-  - unfold fetch_code. destruct (rs_code rs nsym).
-    + eexists. split; [reflexivity|]. cbn. auto.
-    + do 2 eexists. split; [reflexivity|discriminate].
-    + do 2 eexists. split; [reflexivity|discriminate].
+  - unfold fetch_code.
+    destruct (rs_observed rs); destruct (rs_code rs nsym);
+      try (eexists; split; [reflexivity|]; cbn; auto; fail);
+      try (do 2 eexists; split; [reflexivity|discriminate]).
   - destruct e; try (eexists; reflexivity). eexists. split; [reflexivity|]. cbn. auto.
   - eexists; reflexivity.
   - eexists; reflexivity.
